@@ -91,7 +91,7 @@ impl Journal {
     }
 }
 
-fn start_watchdog(dir: PathBuf, index: u32) -> Arc<AtomicU64> {
+fn start_watchdog(dir: PathBuf, index: u32, limit_secs: u64) -> Arc<AtomicU64> {
     // value: 0 = idle, otherwise millis-since-start at which the current case began
     let beat = Arc::new(AtomicU64::new(0));
     let b = beat.clone();
@@ -101,8 +101,8 @@ fn start_watchdog(dir: PathBuf, index: u32) -> Arc<AtomicU64> {
         let started = b.load(Ordering::Relaxed);
         if started != 0 {
             let now = t0.elapsed().as_millis() as u64 + 1;
-            if now.saturating_sub(started) > WATCHDOG_SECS * 1000 {
-                let _ = fs::write(dir.join(format!("inconclusive_{}", index)), "watchdog: one case ran longer than 60 s");
+            if now.saturating_sub(started) > limit_secs * 1000 {
+                let _ = fs::write(dir.join(format!("inconclusive_{}", index)), format!("watchdog: one case ran longer than {} s", limit_secs));
                 std::process::exit(EXIT_INCONCLUSIVE);
             }
         }
@@ -120,6 +120,8 @@ pub struct Plan<C> {
     pub shrink_iters: u32,
     /// decoder for raw fuzz inputs (`regressions/<id>/*.bin`, crash files of the fuzz targets)
     pub decode_bytes: Option<fn(&[u8]) -> Option<C>>,
+    /// per-case watchdog in seconds (0 = the default of 60 s; C14's cases are whole runs)
+    pub watchdog_secs: u64,
 }
 
 pub fn run_worker<C>(ctx: &WorkerCtx, plan: Plan<C>) -> WorkerResult
@@ -127,7 +129,7 @@ where
     C: Serialize + DeserializeOwned + std::fmt::Debug + Clone + 'static,
 {
     sdjwt_model::sut::install_panic_hook();
-    let beat = start_watchdog(ctx.dir.clone(), ctx.index);
+    let beat = start_watchdog(ctx.dir.clone(), ctx.index, if plan.watchdog_secs == 0 { WATCHDOG_SECS } else { plan.watchdog_secs });
     let t0 = Instant::now();
     let journal = RefCell::new(Journal::open(&ctx.dir.join(format!("journal_{}.json", ctx.index))));
     let stats = RefCell::new(Stats { known_signatures: ctx.known.clone(), ..Default::default() });
@@ -421,8 +423,18 @@ pub fn run_parent(info: &PropInfo, tier: Tier, seed: u64, workers: u32) -> Paren
             // an ordinary non-zero exit: the harness itself failed (its own panic, bad arguments)
             let journal = fs::read_to_string(dir.join(format!("journal_{}.json", i))).unwrap_or_default();
             inconclusive.push(format!("worker {} exited with {:?} (harness failure, not a verdict); last case: {}", i, status.code(), sdjwt_model::sut::clip(&journal, 1500)));
+        } else if !matches!(std::os::unix::process::ExitStatusExt::signal(&status), Some(4) | Some(6) | Some(7) | Some(8) | Some(11)) {
+            // SIGKILL / SIGTERM / …: killed from outside (out-of-memory killer, operator), which the
+            // library cannot do to itself — not a verdict
+            let journal = fs::read_to_string(dir.join(format!("journal_{}.json", i))).unwrap_or_default();
+            let keep = root.join("replays").join(info.id);
+            let _ = fs::create_dir_all(&keep);
+            let p = keep.join(format!("inconclusive-{:016x}.json", hash_str(&journal)));
+            let _ = fs::write(&p, &journal);
+            inconclusive.push(format!("worker {} was killed from outside ({:?}); case saved to {}", i, status, p.display()));
         } else {
-            // died by a signal: abort, stack overflow, kill. The journal holds the case that was executing.
+            // died by SIGILL / SIGABRT / SIGBUS / SIGFPE / SIGSEGV: abort or stack overflow inside a
+            // library call. The journal holds the case that was executing.
             let journal = fs::read_to_string(dir.join(format!("journal_{}.json", i))).unwrap_or_default();
             let case = serde_json::from_str::<Value>(&journal).ok().and_then(|v| v.get("case").cloned());
             match case {
